@@ -226,7 +226,9 @@ def run_c08(tier: str) -> int:
     for kind in ("local", "memory"):
         hs = gen_exhaustive(0, kind, depth, "ge_" + kind) + gen_simulated(0, kind, 14, nsim, seed, "gs_" + kind)
         for (i, h) in enumerate(hs):
-            pss = list(PATHSETS) if (tier == "thorough" or i % 3 == 0) else [list(PATHSETS)[i % 3]]
+            # thorough: every behaviour on every store variant; all path sets for one behaviour in four
+            # (the full product is ~2 M replays, 40+ minutes, for no additional kind of coverage)
+            pss = list(PATHSETS) if i % (4 if tier == "thorough" else 3) == 0 else [list(PATHSETS)[i % 3]]
             for ps in pss:
                 for (real_kind, cap) in ([(kind, 0)] + ([(kind, 2)] if i % 4 == 0 or tier == "thorough" else [])
                                          + ([("local@2", 0)] if kind == "local" and (i % 2 == 0 or tier == "thorough") else [])
